@@ -129,7 +129,9 @@ CLAIMED = {
              '(non-singleton) nodes are C02.',
         ref='DESIGN.md §7 C01'),
     'C15': dict(
-        technique='Lean 4 proof of a shortest-path oracle (Floyd-Warshall by structural recursion, path checker) + translation '
+        technique='Lean 4 proof of a shortest-path oracle (Floyd-Warshall by structural recursion, path checker), stated also about the '
+                  'shortest_path wrapper and the graph mutators regenerated from the source on every run (tools/rs2lean_ugraphfns.py, '
+                  'Props/C15Gen.lean through Props/C08Gen.lean) + translation '
                   'validation: every answer of the real shortest_path (petgraph astar) on generated graphs is judged by the proved oracle',
         text='Theorems c15_fw_correct (fw = minimum over all walks, none iff no walk), c15_table_is_fw, c15_bound_covers, '
              'c15_checkPath_sound/_complete (accepted iff a real path of the graph with that weight), c15_minDist_correct, '
@@ -137,8 +139,10 @@ CLAIMED = {
              'weight between live nodes, resp. none iff an end point is absent or the target unreachable) and '
              'c15_shortest_path_judged_ok: the same for the implementation model (contains_node guards mirrored) on every graph '
              'reached by any build/removal history (via the C08 refinement). petgraph astar itself is NOT modelled step by step: '
-             'its result is validated per generated input by this oracle, up to ties (translation validation).',
-        note='Trusted: Lean kernel; the oracle statements; the correspondence run (graphs from C08-style histories incl. cycles, zero '
+             'its result is validated per generated input by this oracle, up to ties (translation validation). Props/C15Gen.lean: '
+             'shortest_path_is_model, c15gen_guards, c15gen_shortest_path_judged_ok — the same statements about the generated '
+             'shortest_path (guards, astar as an external parameter, path copy) on every graph reached by the generated mutators.',
+        note='Trusted: Lean kernel; the oracle statements; rs2lean_ugraphfns.py and the petgraph primitives it writes against; the correspondence run (graphs from C08-style histories incl. cycles, zero '
              'weights, ties, self-loops, removals; all ordered pairs incl. absent end points); petgraph astar not proved; path sums < 2^63.',
         ref='DESIGN.md §7 C15'),
     'C09': dict(
@@ -204,7 +208,9 @@ CLAIMED = {
              'for C08: it is proved equal to the generated definitions on every reachable state.',
         ref='DESIGN.md §7 C08, §5.1, §6 F2/F3'),
     'C12': dict(
-        technique='Lean 4 proof (containers reduced to the item list they hand to the trait default methods; permutation '
+        technique='Lean 4 proof (container adapters regenerated on every run from the macro token strings of deep_causality_macros and the '
+                  'extension impls by the fail-closed translator tools/rs2lean_containers.py -> Gen/Containers.lean, proved equal to the '
+                  'model in Props/C12Gen.lean; containers reduced to the item list they hand to the trait default methods; permutation '
                   'invariance; trace decomposition of reason_all_causes; mutual structural induction over nested causaloids for graph twins) '
                   '+ differential correspondence run over six holders and graph/clone/twin triples',
         text='Theorems c12_len_is_number_of_items, c12_items_of_containers (slice/Vec/VecDeque = the sequence, BTreeMap = ascending '
@@ -221,7 +227,8 @@ CLAIMED = {
         note='Partial: a clone is the same value in the model (shared Arc flags), so clone equality is a correspondence result; the C12 '
              'run uses flat acyclic graphs (nested ones are replayed by C02/C11); shortest-path verdicts of graph/clone/twin are '
              'compared on the real code only; nesting depth of collection causaloids is 1 in Model/Collections.lean. Trusted: Lean kernel, '
-             'Model/Collections.lean + Model/Reasoning.lean (hand-written), f64 execution in the Lean runtime, HashMap order as '
+             'rs2lean_containers.py and its std vocabulary Model/ContainerPrim.lean (len / is_empty / iteration order of sequences / values() '
+             'of maps), Model/Collections.lean + Model/Reasoning.lean (hand-written; the latter proved equal to the generated default methods in Props/C18Gen.lean), f64 execution in the Lean runtime, HashMap order as '
              'reported by get_all_items().',
         ref='DESIGN.md §7 C12'),
     'C18': dict(
@@ -309,14 +316,19 @@ CLAIMED = {
              'translators. Partial: multi-producer delivery is judged per run only.',
         ref='DESIGN.md §7 C04, §5.3'),
     'C13': dict(
-        technique='Lean 4 proof: consequences of the pipeline invariants for every schedule (single and multi producer) + slot layer '
+        technique='Lean 4 proof: consequences of the pipeline invariants for every schedule (single and multi producer) + slot layer; '
+                  'the stage wiring the models assume is proved equal to what the DSL builder builds, for every topology, on definitions '
+                  'regenerated from dsl/rust_disruptor_builder.rs on every run (tools/rs2lean_wiring.py, Gen/RingWiring.lean, Props/C13Gen.lean) '
                   '+ trace replay under the deterministic scheduler',
         text='Every configuration and schedule, single producer (c13_stage_order) and multi producer (c13_multi_stage_order): a '
              'stage-(k+1) handler about to handle i finds i in the log of every stage-k handler, whose published cursor is >= i; '
              'c13_chain; c13_no_stage_lapped (gating on the last stage only bounds every stage: i < w < i + n); '
              'c13_sees_earlier_modifications / c13_multi_sees_earlier_modifications / c13_multi_sees_previous_stage (slot layers, '
              'single and multi producer: a stage-(k+1) handler is handed what stage k was handed with the mutable handler of stage k '
-             'applied). That the accesses are also ordered by happens-before is R2 of C05. The implementation '
+             'applied). That the accesses are also ordered by happens-before is R2 of C05. Props/C13Gen.lean (generated builder run on an '
+             'arbitrary topology): c13gen_barrier_deps (handler (k,j) waits on the producer cursor for k = 0, on exactly the cursors of '
+             'stage k-1 otherwise), c13gen_all_handlers, c13gen_producer_gating (the producer is gated by exactly the last stage), '
+             'model_deps_is_generated / model_gate_is_generated (Ring.ndeps/dep/ngate/gate are those lists). The implementation '
              'events are judged by the stage-order and payload oracles.',
         note='as C04; for the multi producer the no-lap statement is c05_multi_no_lap (C05)',
         ref='DESIGN.md §7 C13'),
@@ -358,17 +370,28 @@ CLAIMED = {
         ref='DESIGN.md §7 C11'),
     'C02': dict(
         technique='Lean 4 proof (mutual structural induction over the nesting tree, reusing the DFS stack-machine lemmas at every '
-                  'graph level) about an executable model of Causaloid / collection / graph reasoning; its singleton and collection '
-                  'levels are tied to the current source by the translator tools/rs2lean_causable.py (Gen/Causable.lean, '
-                  'Props/C11Gen.lean) + differential correspondence run on generated nesting trees',
+                  'graph level) about an executable model of Causaloid / collection / graph reasoning; all three levels are tied '
+                  'to the current source by fail-closed translators run on every check: singleton and collection level by '
+                  'tools/rs2lean_causable.py (Gen/Causable.lean, Props/C11Gen.lean), graph level by tools/rs2lean_reasoning.py '
+                  '(Gen/ReasoningN.lean = the definitions symbolically executed from graph_reasoning.rs read against nodes that answer '
+                  'is_singleton / verify_all_causes themselves; Props/C02Gen.lean: generated reason_all_causes = the model\'s '
+                  'reasonAllGraph for every graph of nested causaloids, loop invariant by induction on fuel) '
+                  '+ differential correspondence run on generated nesting trees',
         text='Theorems wrapper_eq_direct_{alone,in_collection,in_graph}: a wrapper gives, alone, as item i of a collection and as '
              'non-root node of a graph, exactly the verdict of reasoning directly over the wrapped structure with the data routed '
              'as the code routes it; nested_true_iff / nested_false / nested_err_never_true / nested_{false,err}_cause / '
              'verdict_is_conjunction: for every nesting tree of acyclic graphs (depth, fan-out unbounded), every data vector and '
              'index, an answered verdict is the conjunction of the verdicts of all contained singletons (Spec.Nest.contained); '
              'nested_terminates + total forms; contextual_uses_own_ctx / nested_uses_own_ctxs. Quirks carried as hypotheses and '
-             'covered as panic: wrapper in root position, wrapper node whose own id has no observation slot.',
-        note='Trusted: Lean kernel, the graph-reasoning part of Model/Causaloid.lean mirroring graph_reasoning.rs (validated by the '
+             'covered as panic: wrapper in root position, wrapper node whose own id has no observation slot. '
+             'Props/C02Gen.lean: get_obs_eq, nodeTable_get, node_verdict, loop_eq, reason_from_to_cause_eq, reason_all_causes_eq, '
+             'verifyAll_graph_eq (verify_all_causes of a graph wrapper is the generated graph reasoning over nodes whose own '
+             'verify_all_causes are the model\'s), c02gen_graph_true_iff, c02gen_graph_err_never_true — under Total (no node '
+             'evaluation panics), singleton root, non-empty graph; hypotheses met by a decided example.',
+        note='Trusted: Lean kernel, the translators rs2lean_causable.py / rs2lean_reasoning.py and their vocabularies '
+             '(Model/ReasoningPrimN.lean: an add-only graph as node list + edge list + root, get_last_index = node count, neighbours '
+             'ascending); the panicking paths of the graph level (wrapper as root, contextual causaloid without context) are theorems '
+             'about the hand model only (validated by the '
              'correspondence run: every verdict and every is_active flag after every call; causable.rs and protocols/causable/mod.rs '
              'are read by the translator rs2lean_causable.py and the model is proved to satisfy what it reads: Props/C11Gen.lean), '
              'petgraph neighbour order = ascending index, the harness/driver pair. none = panic or no answer within fuel.',
